@@ -39,9 +39,17 @@ def vec6(rng):
     return gen.vec(rng, 6, 1e-6, 1e6) if rng.random() < 0.6 else gen.vec(rng, 6, 1e-2, 1e2)
 
 
-def mk(c, vs):
+def mk(c, vs, form='float'):
+    """form: how the numbers are handed to the constructor -- float64 array, integer-dtype array, list of Python ints or floats
+    (integer forms require integer-valued data)"""
     C = getattr(S(), c)
     vs = [np.asarray(v, dtype=np.float64) for v in vs]
+    if form == 'int_array':
+        vs = [v.astype(np.int64) for v in vs]
+    elif form == 'int_list' and len(vs) == 1:
+        return C([int(t) for t in vs[0]])
+    elif form == 'list' and len(vs) == 1:
+        return C([float(t) for t in vs[0]])
     return C(vs[0]) if len(vs) == 1 else C(np.column_stack(vs))
 
 
@@ -112,9 +120,10 @@ def run_cross(ctx, p):
     sm = S()
     cl, cr = p['left'], p['right']
     v, o = np.asarray(p['v'], float), np.asarray(p['o'], float)
-    sig = dict(api='cross', left=cl, right=cr, via=p['via'])
+    lf, rf = p.get('lform', 'float'), p.get('rform', 'float')
+    sig = dict(api='cross', left=cl, right=cr, via=p['via'], forms='%s/%s' % (lf, rf))
     try:
-        x, y = mk(cl, [v]), mk(cr, [o])
+        x, y = mk(cl, [v], lf), mk(cr, [o], rf)
         r = (x @ y) if p['via'] == 'matmul' else x.cross(y)
     except Exception as e:
         ctx.bad('cross', dict(sig, kind='raised', exc=type(e).__name__, where=_where(e)), '%s x %s raised %r' % (cl, cr, e))
@@ -141,7 +150,7 @@ def run_cross(ctx, p):
                 ctx.judge('cross', abs(float(y.dot(m)) - float(np.dot(o, m))) <= TOL * np.linalg.norm(o) * np.linalg.norm(m), dict(sig, kind='dot_wrong'), 'force.dot(m) wrong')
         except Exception as e:
             ctx.bad('cross', dict(sig, kind='raised', exc=type(e).__name__, where=_where(e)), 'duality evaluation raised %r' % e)
-    ctx.cell('cross', cl, cr, p['via'])
+    ctx.cell('cross', cl, cr, p['via'], lf, rf)
     if np.linalg.norm(v[:3]) > 0 and np.linalg.norm(v[3:]) > 0:
         ctx.nontrivial('cross', cl, cr, [float('%.9g' % t) for t in np.r_[v, o]])
 
@@ -276,6 +285,13 @@ def run(ctx):
         right = ['SpatialVelocity', 'SpatialForce', 'SpatialMomentum'][rng.integers(3)]
         via = 'matmul' if (left == 'SpatialVelocity' and rng.random() < 0.5) else 'cross'
         p = dict(left=left, right=right, v=vec6(rng), o=vec6(rng), via=via, m=vec6(rng))
+        if rng.random() < 0.3:       # integer-valued data supplied as integers on either side
+            FORMS6 = ['float', 'int_array', 'int_list', 'list']
+            p['lform'], p['rform'] = FORMS6[rng.integers(4)], FORMS6[rng.integers(4)]
+            if p['lform'].startswith('int'):
+                p['v'] = rng.integers(-9, 10, size=6).astype(float) * 10.0 ** int(rng.integers(0, 3))
+            if p['rform'].startswith('int'):
+                p['o'] = rng.integers(-9, 10, size=6).astype(float) * 10.0 ** int(rng.integers(0, 3))
         drive(RUNNERS, ctx, 'cross', p)
         if ctx.ncases % 999 == 1:
             ctx.sample(dict(case='cross', **p), limit=4)
